@@ -306,6 +306,11 @@ def run(ctx):
     ok_n = isinstance(nrec, ast.Name) and any(norm(n.value) == norm(count_reads[0]) for n in assigns.get(nrec.id, []))
     ctx.check("C05.R5", "Block.num_records is the count read from the block header", ok_n, f.where(blk[0]), f"{f.qualname}: num_records={norm(nrec) if nrec is not None else '?'}", "the record count reported for a block is not the count varint read for it")
 
+    # ---- shared ----
+    ctx.borrow("C02", {"C02.R1": "C05.R6"}, "files read by another implementation must contain specification-encoded records")
+    ctx.borrow("C03", {"C03.R1": "C05.R7"}, "files written by another implementation may use every form the specification allows (e.g. sized array/map blocks in any block): the reader must accept the full grammar")
+    ctx.borrow("C04", {"C04.R2": "C05.R8"}, "the header another implementation reads must carry the schema and codec actually used")
+
 
 def _enclosing(mod, node):
     best = None
